@@ -8,6 +8,9 @@ import EaselModel.Gencode.OrfOrder
 import EaselModel.Gencode.TableFacts1
 import EaselModel.Gencode.TableFacts2
 import EaselModel.Gencode.TableFacts3
+import EaselModel.Gencode.TableFacts4
+import EaselModel.Gencode.Extras
+import EaselModel.Gencode.ReadTotal
 import EaselModel.Alphabet.Iupac
 /-! # C17 — property theorems (statements + glue only; lemmas live in Gencode/*.lean)
 
@@ -194,6 +197,108 @@ theorem orf_numbering_and_order (nt aa : Alphabet) (g : Gencode) (cfg : Cfg) (hn
 /-- every built-in table under every initiator setting satisfies the hypothesis `TableOK` of `orf_frame_declarative`
     (no initiator codon is a stop; M and X are not the stop code) -/
 theorem builtin_tables_ok : ∀ t ∈ T.tables, ∀ g ∈ settings (codeOf t), TableOK A.amino g := Facts.builtin_tables_ok
+
+/-! ## an independent structural check of the tables (not through the pinned AAs/Starts strings) -/
+
+/-- the tree's table 1 is the standard genetic code, stated by amino acid (`Facts.standardByAminoAcid`: "A ↦ GCA GCC GCG GCT", …,
+    "* ↦ TAA TAG TGA"): for each of the 20 amino acids and the stop, the codons translated to it are exactly the listed ones -/
+theorem standard_code_by_amino_acid :
+    ∀ std ∈ (T.tables.find? (fun t => t.id = 1)).toList, ∀ p ∈ Facts.standardByAminoAcid,
+      Facts.codonsOf std p.1 = Facts.words p.2 := Facts.standard_code_by_amino_acid
+
+/-- every table of the tree differs from its table 1 in EXACTLY the codons the NCBI documentation lists for it
+    (`Facts.documented`: 2: AGA AGG stop, ATA Met, TGA Trp; 3: ATA Met, CTN Thr, TGA Trp; 4: TGA Trp; 5: AGA AGG Ser, ATA Met,
+    TGA Trp; 6: TAA TAG Gln; 9: AAA Asn, AGA AGG Ser, TGA Trp; 10: TGA Cys; 11: none; 12: CTG Ser; 13: AGA AGG Gly, ATA Met,
+    TGA Trp; 14: AAA Asn, AGA AGG Ser, TAA Tyr, TGA Trp; 16: TAG Leu; 21: AAA Asn, AGA AGG Ser, ATA Met, TGA Trp; 22: TAG Leu,
+    TCA stop; 23: TTA stop; 24: AGA Ser, AGG Lys, TGA Trp; 25: TGA Gly) and has EXACTLY the documented initiation codons;
+    all 18 documented tables are offered. This rendering was typed independently of `Ncbi.pinned` and has another shape
+    (differences, not 64-letter strings): changing a table entry in the C source and the pinned string in the same wrong
+    way does not get past it. -/
+theorem tables_differ_as_documented :
+    ∀ std ∈ (T.tables.find? (fun t => t.id = 1)).toList,
+      (∀ t ∈ T.tables, (t.id, Facts.diffFrom std t, Facts.startsOf t) ∈
+        Facts.documented.map (fun d => (d.1, Facts.diffWords d.2.1, Facts.words d.2.2))) ∧
+      (∀ d ∈ Facts.documented, d.1 ∈ T.tables.map (·.id)) ∧ T.tables.length = Facts.documented.length ∧
+      (T.tables.find? (fun t => t.id = 1)).isSome = true := Facts.tables_differ_as_documented
+
+/-! ## `esl_gencode_Read` on arbitrary bytes; the small public functions -/
+
+/-- TOTALITY OF THE COLUMN LOOP OF `esl_gencode_Read`: with every array access of the C code checked (the five line buffers,
+    `inmap[]` of both alphabets, `aa_seen[20]`, `codon_seen[64]`, `basic[64]`, `is_initiator[64]`), for ANY five 64-byte
+    tokens the loop never reads or writes out of bounds and computes exactly what the model `readColumns` (hence `read`)
+    computes: the outcome of `esl_gencode_Read` on any byte string is `eslOK` with a table or `eslEFORMAT`, never a fault.
+    (The line splitting and the five anchored regular expressions before the loop work on the parser's own NUL-terminated
+    line; their model `matchLine` is total by construction and tied by the differential run on damaged files.) -/
+theorem read_never_faults (nt aa : Alphabet) (hK : nt.K = 4) (hin : nt.inmap.length = 128) (hia : aa.inmap.length = 128)
+    (aas mline b1 b2 b3 : List Nat) (h1 : aas.length = 64) (h2 : mline.length = 64) (h3 : b1.length = 64)
+    (h4 : b2.length = 64) (h5 : b3.length = 64) (basic ini : List Nat) (hb : basic.length = 64) (hi : ini.length = 64) :
+    readColumnsO nt aa aas mline b1 b2 b3 64 (basic, ini, List.replicate 64 0, List.replicate 20 0, 0) =
+      some (readColumns nt aa aas mline b1 b2 b3 64 basic ini (List.replicate 64 0) (List.replicate 20 0) 0) :=
+  readColumnsO_total nt aa hK hin hia aas mline b1 b2 b3 h1 h2 h3 h4 h5 64 basic ini _ _ 0 (Nat.le_refl _) hb hi
+    (by simp) (by simp)
+
+/-- the dumped alphabets and every built-in table satisfy the hypotheses of `read_never_faults` -/
+theorem read_never_faults_hyps :
+    A.dna.K = 4 ∧ A.rna.K = 4 ∧ A.dna.inmap.length = 128 ∧ A.rna.inmap.length = 128 ∧ A.amino.inmap.length = 128 ∧
+    ∀ t ∈ T.tables, t.basic.length = 64 ∧ t.init.length = 64 := by decide +kernel
+
+/-- BOUNDS OF `esl_gencode_DecodeDigicodon` FOR EVERY C `int` (division truncating toward zero): the three reads of
+    `nt_abc->sym[]` stay inside the `Kp + 1` bytes of the symbol string exactly when `0 ≤ d` and `d / 16 ≤ Kp`
+    (its documented domain `0..63` is inside); every negative `d` reads before the array -/
+theorem decode_digicodon_bounds (nt : Alphabet) (h3 : 3 ≤ nt.sym.length) (d : Int) :
+    (decodeDigicodon nt d).isSome = true ↔ 0 ≤ d ∧ d / 16 ≤ nt.sym.length := decodeDigicodon_isSome nt h3 d
+
+/-- on its domain `DecodeDigicodon` is the inverse of the codon index `16x + 4y + z`: the three letters it stores digitize
+    back to `d` (DNA and RNA alphabets), and they are canonical nucleotides -/
+theorem decode_digicodon_inverse :
+    ∀ nt ∈ [A.dna, A.rna], ∀ d, d < 64 → ∃ a b c, decodeDigicodon nt (d : Nat) = some [a, b, c] ∧
+      16 * nt.inmapAt a + 4 * nt.inmapAt b + nt.inmapAt c = d ∧ nt.inmapAt a < 4 ∧ nt.inmapAt b < 4 ∧ nt.inmapAt c < 4 := by
+  intro nt hnt d hd
+  have key : ∀ nt ∈ [A.dna, A.rna], ∀ d ∈ List.range 64,
+      (match decodeDigicodon nt (d : Nat) with
+       | some [a, b, c] => decide (16 * nt.inmapAt a + 4 * nt.inmapAt b + nt.inmapAt c = d ∧ nt.inmapAt a < 4 ∧ nt.inmapAt b < 4 ∧ nt.inmapAt c < 4)
+       | _ => false) = true := by decide +kernel
+  have := key nt hnt d (List.mem_range.mpr hd)
+  split at this
+  · rename_i a b c heq
+    exact ⟨a, b, c, heq, by simpa using this⟩
+  · cases this
+
+/-- `esl_gencode_Compare` answers `eslOK` exactly for equal codes: same alphabet types, (if asked) same id and description,
+    same 64 translations and same 64 initiator flags -/
+theorem compare_spec (n1 a1 n2 a2 : Nat) (g1 g2 : Gencode) (md : Bool) (h1 : CodeOK g1) (h2 : CodeOK g2) :
+    ∃ r, compare n1 a1 n2 a2 g1 g2 md = some r ∧
+      (r = true ↔ (n1 = n2 ∧ a1 = a2 ∧ (md = true → g1.translTable = g2.translTable ∧ g1.desc = g2.desc) ∧
+        g1.basic = g2.basic ∧ g1.isInit = g2.isInit)) :=
+  EaselModel.Gencode.compare_spec n1 a1 n2 a2 g1 g2 md h1.1 h2.1 h1.2 h2.2
+
+/-- `esl_gencode_ProcessOrf`: a record is emitted exactly when the frame is inside an ORF of AT LEAST `minlen` residues (an ORF
+    of exactly `minlen` is reported, one of `minlen − 1` is not); it is numbered `orfcount + 1` (its name is "orf<number>"),
+    labelled frame `f + 1` on the top strand and `f + 4` on the reverse strand, starts where the ORF was opened, ends one
+    residue before the current position in reading direction and carries the residues in reading order; in every case the
+    frame is reset, and position, frame counter and strand are untouched -/
+theorem process_orf_spec (cfg : Cfg) (w : Core) :
+    ((w.getF.inOrf = true ∧ cfg.minlen ≤ (w.getF.rev.length : Int)) → (processOrf cfg w).out =
+        { num := w.orfcount + 1, start := w.getF.start, stop := if w.isRev then w.apos + 1 else w.apos - 1,
+          frame := w.frame + 1 + (if w.isRev then 3 else 0), aa := w.getF.rev.reverse } :: w.out ∧
+      (processOrf cfg w).orfcount = w.orfcount + 1) ∧
+    (¬ (w.getF.inOrf = true ∧ cfg.minlen ≤ (w.getF.rev.length : Int)) →
+      (processOrf cfg w).out = w.out ∧ (processOrf cfg w).orfcount = w.orfcount) ∧
+    (processOrf cfg w).getF = { rev := [], start := 0, inOrf := false } ∧
+    (processOrf cfg w).apos = w.apos ∧ (processOrf cfg w).frame = w.frame ∧ (processOrf cfg w).isRev = w.isRev :=
+  processOrf_spec cfg w
+
+-- the minimum-length boundary on a whole sequence: ATG AAA TAA has the 2-residue ORF "MK": reported with minlen 2, not with 3;
+-- with a first window of only 2 residues and every later window of 1 residue the result is the same
+example : (T.tables.head?.map fun t =>
+    let g := setInitiatorAny A.amino (codeOf t)
+    let d := [0,3,2,0,0,0,3,0,0]
+    ((runStrand A.dna A.amino g ⟨false, 2⟩ {} false d [9]).map fun w => recsOf w.c.out 1,
+     (runStrand A.dna A.amino g ⟨false, 3⟩ {} false d [9]).map fun w => recsOf w.c.out 1,
+     (runStrand A.dna A.amino g ⟨false, 2⟩ {} false d [2, 1, 1, 1, 1, 1, 1, 1]).map fun w => recsOf w.c.out 1)) =
+    some (some [⟨1, 6, [10, 8]⟩], some [], some [⟨1, 6, [10, 8]⟩]) := by decide +kernel
+example : (decodeDigicodon A.dna 14, decodeDigicodon A.dna 303, decodeDigicodon A.dna 304, decodeDigicodon A.dna (-1)) =
+    (some [65, 84, 71], some [0, 84, 84], none, none) := by decide +kernel
 
 /-! ## non-vacuity -/
 -- ATGAAATAAATGCCCTAGG in the standard code, any-initiator, minlen 0, top strand, windows 4+5+10:
